@@ -40,10 +40,10 @@ type rtOutcome struct {
 // runRT runs `cases` cases of a scenario in child processes of the race-built binary.
 func runRT(run *harness.Run, scenario string, cases, perChild, parallel int) *rtOutcome {
 	out := &rtOutcome{stats: map[string]int{}}
-	dir := filepath.Join(harness.Root, "replays", run.Prop, "rt-"+scenario)
+	dir := filepath.Join(harness.OutRoot(), "replays", run.Prop, "rt-"+scenario)
 	os.RemoveAll(dir)
 	os.MkdirAll(dir, 0o755)
-	bin := filepath.Join(harness.Root, ".bin", "check-race")
+	bin := filepath.Join(harness.Root, ".bin", "check-race"+os.Getenv("VERIF_BIN_SUFFIX"))
 	if _, err := os.Stat(bin); err != nil {
 		out.inconcl = append(out.inconcl, "race-built driver missing: "+bin)
 		return out
